@@ -73,8 +73,9 @@ type c01Server struct {
 type c01Req struct {
 	Host    string      `json:"host"`
 	Method  string      `json:"method"`
-	Path    string      `json:"path"`
-	Headers [][2]string `json:"headers"` // raw key, value (in order; repeated keys allowed)
+	Path    string      `json:"path"`              // URL.Path (decoded)
+	RawPath string      `json:"rawpath,omitempty"` // URL.RawPath: wire encoding when it differs (%2F, %41 ...)
+	Headers [][2]string `json:"headers"`           // raw key, value (in order; repeated keys allowed)
 	Remote  string      `json:"remote"`  // RemoteAddr
 }
 
@@ -289,8 +290,12 @@ func c01StdReq(r c01Req) *http.Request {
 	for _, kv := range r.Headers {
 		hdr.Add(kv[0], kv[1])
 	}
-	return &http.Request{Method: r.Method, URL: &url.URL{Path: r.Path}, Host: r.Host, Header: hdr,
-		RemoteAddr: r.Remote, Body: http.NoBody, Proto: "HTTP/1.1", ProtoMajor: 1, ProtoMinor: 1, RequestURI: r.Path}
+	uri := r.Path
+	if r.RawPath != "" {
+		uri = r.RawPath
+	}
+	return &http.Request{Method: r.Method, URL: &url.URL{Path: r.Path, RawPath: r.RawPath}, Host: r.Host, Header: hdr,
+		RemoteAddr: r.Remote, Body: http.NoBody, Proto: "HTTP/1.1", ProtoMajor: 1, ProtoMinor: 1, RequestURI: uri}
 }
 
 func (cm *c01Mux) serve(r c01Req) (o c01Out) {
@@ -481,14 +486,14 @@ var (
 	c01ReqHosts  = []string{"a.com", "b.com", "a.co", "www.a.com", "x.org", "a.com:80", "b.com:8080", "[::1]:80", "[::1]", "a.com:", "a.com:80:90", "", "A.com", "a.comm", "www.a.com:443", "[a.com]:80", "a.com]:80"}
 	c01Paths     = []string{"/a", "/ab", "/a/b", "/b", "/", "/a/"}
 	c01Prefixes  = []string{"/a", "/a/", "/", "/b", "/ab"}
-	c01PathREs   = []string{`^/a(.*)$`, `/([a-z]+)/([0-9]+)`, `^/b$`, `^/[ab]+$`, `a`, `^/(a|b)/`}
-	c01ReqPaths  = []string{"/a", "/ab", "/a/b", "/b", "/", "/a/", "/a/b/1", "/x/12", "", "/ab/12", "/c", "/abc", "/B", "/a/12", "/b/"}
+	c01PathREs   = []string{`^/a(.*)$`, `/([a-z]+)/([0-9]+)`, `^/b$`, `^/[ab]+$`, `a`, `^/(a|b)/`, `^/a/[^/]+$`, `^/a/(.*)$`}
+	c01ReqPaths  = []string{"/a", "/ab", "/a/b", "/b", "/", "/a/", "/a/b/1", "/x/12", "", "/ab/12", "/c", "/abc", "/B", "/a/12", "/b/", "/a/A", "/a%b", "/a?b"}
 	c01Methods   = []string{"GET", "POST", "PUT", "DELETE"}
 	c01ReqMeths  = []string{"GET", "POST", "PUT", "DELETE", "mGET", "get", "PATCH", "mPOST"}
 	c01HdrKeys   = []string{"X-Test", "x-env", "Accept", "X-TEST"}
 	c01HdrVals   = []string{"v1", "v2", "v3", "", "V1", "v10"}
 	c01HdrREs    = []string{`^v[0-9]$`, `^$`, `1`, `.*`, `^v1`}
-	c01Rewrites  = []string{"/new", "/n$1", "/r/$2/$1", "/new/", "/"}
+	c01Rewrites  = []string{"/new", "/n$1", "/r/$2/$1", "/new/", "/", "new", "$1", "v2/$1", "$2", "n$1/"}
 	c01Backends  = []string{"A", "B", "C"}
 	c01ClientIPs = []string{"10.0.0.8", "10.0.0.9", "10.0.1.1", "192.168.1.1", "8.8.8.8", "2001:db8::1", "9.9.9.9"}
 	c01FilterIPs = []string{"10.0.0.8", "10.0.0.9", "10.0.0.0/24", "10.0.0.0/16", "8.8.8.8", "8.8.0.0/16", "2001:db8::/32", "192.168.1.1", "0.0.0.0/0"}
@@ -702,7 +707,42 @@ func c01GenReq(r *vfRand, s c01Server, withIP bool) c01Req {
 		q.Remote = remote
 		q.Headers = append(q.Headers, hs...)
 	}
+	if r.Chance(1, 5) { // the same decoded path in another wire encoding
+		q.RawPath = c01EncodePath(r, q.Path)
+	}
 	return q
+}
+
+// c01EncodePath returns another wire encoding of the same decoded path: some
+// reserved or plain bytes percent-encoded (%2F / %2f for a non-leading slash,
+// %41 / %61 for a letter, %25, %3F); "" when nothing was encoded.
+func c01EncodePath(r *vfRand, path string) string {
+	out := ""
+	changed := false
+	for i := 0; i < len(path); i++ {
+		c := path[i]
+		enc := ""
+		switch {
+		case c == '%':
+			enc = "%25"
+		case c == '?':
+			enc = "%3F"
+		case c == '/' && i > 0 && r.Chance(2, 3):
+			enc = r.PickStr("%2F", "%2f")
+		case (c == 'a' || c == 'A' || c == 'b') && r.Chance(1, 4):
+			enc = fmt.Sprintf("%%%02X", c)
+		}
+		if enc != "" {
+			out += enc
+			changed = true
+		} else {
+			out += string(c)
+		}
+	}
+	if !changed {
+		return ""
+	}
+	return out
 }
 
 func c01GenCase(r *vfRand, adv bool) *c01In {
